@@ -5,6 +5,7 @@
 import Vt.Model.Dump
 import Vt.Spec.Inv
 import Vt.Spec.EmitOk
+import Vt.Props.DiffWrap
 open Vt Vt.Dump
 
 structure WEntry where
@@ -103,6 +104,26 @@ def step (W : Nat → Option Nat) (st : DState) (line : String) : DState × Stri
       | .ok p' => ({ st with parser := some p' }, if toks.head! == "W" then s!"ok {bs.length}" else "ok")
       | .error (.at n) => (st, s!"PANIC {n}")
     | _, _ => (st, "BADOP")
+  | ["WA", h] =>
+    -- `write_all`: the provided method of `io::Write` loops over `write`, which takes everything at once
+    match st.parser, unhex h with
+    | some p, some bs =>
+      match p.process W st.cb bs with
+      | .ok p' => ({ st with parser := some p' }, s!"ok {bs.length}")
+      | .error (.at n) => (st, s!"PANIC {n}")
+    | _, _ => (st, "BADOP")
+  | ["WV", h, cuts] =>
+    -- `write_vectored` offered again until everything is taken: the crate does not override it, and the
+    -- provided method passes the first non-empty slice to `write` — one `process` call per slice
+    match st.parser, unhex h with
+    | some p, some bs =>
+      let cs := ((cuts.splitOn ",").filterMap String.toNat?).filter (· ≤ bs.length)
+      let bounds := (0 :: cs ++ [bs.length]).mergeSort
+      let pieces := (bounds.zip bounds.tail).map (fun (a, b) => (bs.drop a).take (b - a))
+      match pieces.foldlM (fun p piece => if piece.isEmpty then pure p else p.process W st.cb piece) p with
+      | .ok p' => ({ st with parser := some p' }, s!"ok {bs.length}")
+      | .error (.at n) => (st, s!"PANIC {n}")
+    | _, _ => (st, "BADOP")
   | ["P"] => (st, "ok")
   | ["W"] => (st, "ok 0")
   | ["Z", r, c] =>
@@ -145,6 +166,16 @@ def step (W : Nat → Option Nat) (st : DState) (line : String) : DState × Stri
     | none => (st, "NOPARSER")
   | ["I"] =>
     (st, withScreen st (fun s => s!"inv {b01 (invB W s)} {b01 (invPlusB W s)} {invWhy W s} {b01 (emitInvB W s)}"))
+  | ["K", k] =>
+    -- the side conditions of the C02 theorems (DiffWrap: `LinkW` with the position-free `LineOkW`) on the pair
+    -- (previous = slot k, current = the screen): evaluated on implementation states like `I`
+    (st, withScreen st (fun s =>
+      match k.toNat?.bind (slot st) with
+      | some prev =>
+        let sized := s.cur.size == prev.cur.size
+        let off0 := s.cur.scrollbackOffset == 0 && prev.cur.scrollbackOffset == 0
+        s!"k {b01 sized} {b01 off0} {b01 (sized && off0 && Vt.C02.linesOkWB s prev)} {b01 (sized && off0 && Vt.C02.linesOkWB prev s)}"
+      | none => "NOSLOT"))
   | ["F", name] =>
     (st, withScreen st (fun s =>
       match name with
